@@ -88,7 +88,9 @@ ME (op) (const char *op, int d, int a, int b, const int *v, int nv)
 	pixman_image_t *img;
 	vf_pause (1);
 	bits = malloc (4 * stride_words * h);
-	memset (bits, 0xff, 4 * stride_words * h);      /* padding bits set: must be ignored */
+	/* padding bits (beyond the width, and the extra stride word) must be ignored whatever they hold:
+	 * an optional trailing script value chooses their content (default: all ones) */
+	memset (bits, (nv > 2 + w * h) ? v[2 + w * h] : 0xff, 4 * stride_words * h);
 	for (y = 0; y < h; y++)
 	    for (x = 0; x < w; x++)
 	    {
